@@ -67,7 +67,7 @@ class Build:
         os.makedirs(workdir, exist_ok=True)
 
     def libflags(self):
-        f = list(CFLAGS) + ["-I" + REPO + "/SRC"]
+        f = list(CFLAGS) + ["-I" + REPO + "/SRC", "-I" + VERIF + "/harness/compat"]
         if self.vendor: f.append("-DUSE_VENDOR_BLAS")
         if self.idx64: f.append("-DXSDK_INDEX_SIZE=64")
         if self.asan: f += ["-fsanitize=address,undefined", "-fno-sanitize=float-divide-by-zero,float-cast-overflow", "-fno-sanitize-recover=undefined", "-fsanitize-address-use-after-scope"]
@@ -121,7 +121,7 @@ class Build:
 
     def build_native(self, harness_c, name, defs=()):
         """uninstrumented native build of the same sources + harness (replay / translator validation)."""
-        flags = ["-O0", "-ffp-contract=off", "-DNDEBUG", "-DPRNTlevel=0", "-DDEBUGlevel=0", "-Wno-everything", "-I" + REPO + "/SRC", "-I" + VERIF + "/slusym",
+        flags = ["-O0", "-ffp-contract=off", "-DNDEBUG", "-DPRNTlevel=0", "-DDEBUGlevel=0", "-Wno-everything", "-I" + REPO + "/SRC", "-I" + VERIF + "/harness/compat", "-I" + VERIF + "/slusym",
                  "-I" + VERIF + "/harness/e2", "-DPREC_" + self.prec.upper(), "-DSLUSYM_NATIVE"] + list(defs) + self.extra_defs
         if self.vendor: flags.append("-DUSE_VENDOR_BLAS")
         if self.idx64: flags.append("-DXSDK_INDEX_SIZE=64")
